@@ -30,7 +30,8 @@ def spec_diff(r, py=None, stage=''):
     def add(table, kind, subject, name, a, b, text, **case):
         table += stage
         if stage:
-            text = '[after the library has been used in the same interpreter] ' + text
+            text = ('[after the library has been used in the same interpreter] ' if stage == '@after-use' else
+                    '[interpreter that imported only the public package] ') + text
         out.append((table, kind, subject, name, a, b, text, dict(case, table=table, kind=kind, subject=subject, name=name)))
 
     paired = [p for p in r['pairing'].values() if p]
@@ -158,11 +159,22 @@ def stability_rows(r):
                         'the Python table %s is different after the library has been used in the same interpreter: %s' % (key, json.dumps(d)[:400]),
                         dict(d, table='stability', kind='table-changed-by-use', subject=key, name='',
                              exercised=r['py'].get('exercised', {}).get('ok', []))))
+    pub = r['py'].get('public', {})
+    for key in ('command_messages', 'response_messages', 'classification', 'classes', 'registry', 'by_name', 'enums', 'canonical'):
+        if pub.get(key) != a.get(key):
+            if isinstance(a.get(key), list):
+                la, lb = [json.dumps(x) for x in a[key]], [json.dumps(x) for x in pub.get(key) or []]
+                d = {'only_with_all_submodules_imported': [json.loads(x) for x in la if x not in lb][:12], 'only_with_the_public_import': [json.loads(x) for x in lb if x not in la][:12]}
+            else:
+                d = {'differing_enums': sorted(k for k in set(a[key]) | set(pub.get(key) or {}) if a[key].get(k) != (pub.get(key) or {}).get(k))}
+            out.append(('stability', 'table-depends-on-which-submodules-were-imported', key, '', 0, 0,
+                        'the Python table %s after `from fusion_engine_client.messages import *` differs from the one after importing every submodule: %s' % (key, json.dumps(d)[:400]),
+                        dict(d, table='stability', kind='table-depends-on-which-submodules-were-imported', subject=key, name='', loaded_modules=pub.get('loaded_modules'))))
     for k, v in a.get('object_ids', {}).items():
         if b.get('object_ids', {}).get(k) != v:
             out.append(('stability', 'registry-object-replaced', k, '', 0, 0, 'after use, %s is a different object than at import' % k,
                         {'table': 'stability', 'kind': 'registry-object-replaced', 'subject': k, 'name': ''}))
-    for stage, snap in (('right after import', a), ('after the library has been used in the same interpreter', b)):
+    for stage, snap in (('right after import', a), ('after the library has been used in the same interpreter', b), ('interpreter that imported only the public package', r['py'].get('public', {}))):
         for key, name, value, why in snap.get('access_failures', []):
             out.append(('stability', 'enum-member-not-reachable-on-every-access-path', key, name, value, 0,
                         '[%s] Python enum %s: member %s = %d is defined but %s (checked: attribute, E[name], E(name), E(value), iteration, len, name, str)'
@@ -218,7 +230,7 @@ def run_model():
 
 def evaluate(ctx):
     r = gen_c03.generate()
-    spec = spec_diff(r) + spec_diff(r, r['py']['after_use'], '@after-use') + stability_rows(r)
+    spec = spec_diff(r) + spec_diff(r, r['py']['after_use'], '@after-use') + spec_diff(r, r['py']['public'], '@public-import') + stability_rows(r)
     return r, spec
 
 
@@ -254,7 +266,7 @@ def run(ctx):
     elif ctx.thorough:
         coqchk(ctx)
     model = run_model()
-    spec = spec_diff(r) + spec_diff(r, r['py']['after_use'], '@after-use')
+    spec = spec_diff(r) + spec_diff(r, r['py']['after_use'], '@after-use') + spec_diff(r, r['py']['public'], '@public-import')
     spec_keys = {s[:6] for s in spec}
     spec = spec + stability_rows(r)
     for row in corpus_rows():       # rows that failed in the past: re-evaluated first, reported like any other row
@@ -328,7 +340,7 @@ def run(ctx):
 def replay(ctx, rec):
     case = rec.get('case', rec)
     r = gen_c03.generate()
-    spec = spec_diff(r) + spec_diff(r, r['py']['after_use'], '@after-use') + stability_rows(r)
+    spec = spec_diff(r) + spec_diff(r, r['py']['after_use'], '@after-use') + spec_diff(r, r['py']['public'], '@public-import') + stability_rows(r)
     hit = [s for s in spec if s[0] == case.get('table') and s[1] == case.get('kind') and s[2] == case.get('subject') and s[3] == case.get('name')]
     print('recorded row :', json.dumps(case, default=str))
     if hit:
